@@ -167,13 +167,17 @@ void Logging::log( const std::string& log_name, const detail::LogMsg& msg)
 ///    The name of the attribute.
 /// @param[in]  value
 ///    The value for the attribute.
+/// @return
+///    The id of the new attribute entry.
+/// @since
+///    1.47.0, 30.09.2026  (returns the id of the entry)
 /// @since
 ///    1.15.0, 10.10.2018
-void Logging::addAttribute( const std::string& name, const std::string& value)
+detail::LogAttributesContainer::attr_id_t
+   Logging::addAttribute( const std::string& name, const std::string& value)
 {
 
-   mAttributes.addAttribute( name, value);
-
+   return mAttributes.addAttribute( name, value);
 } // Logging::addAttribute
 
 
@@ -190,6 +194,21 @@ void Logging::removeAttribute( const std::string& attr_name)
    mAttributes.removeAttribute( attr_name);
 
 } // Logging::removeAttribute
+
+
+
+/// Removes exactly the attribute entry with the given id.
+///
+/// @param[in]  attr_id
+///    The id of the entry to remove, as returned by addAttribute().
+/// @since  1.47.0, 30.09.2026
+void Logging::removeAttributeEntry(
+   detail::LogAttributesContainer::attr_id_t attr_id)
+{
+
+   mAttributes.removeAttributeEntry( attr_id);
+
+} // Logging::removeAttributeEntry
 
 
 
